@@ -42,7 +42,7 @@ TRUSTED = ["hmac_sha512/hmac_sha256/pbkdf2/sha512/blake2b (hashlib) and ed25519 
 ASSUMPTIONS = ["hash/HMAC/KDF output lengths", "ed25519 points form a Z-module with l*G = 0 (hypotheses)",
                "point encoding is decodable: pdec (penc P) = Some P",
                "termination of the repeat-hash loops (fuel 200 in the extracted model)"]
-BUDGET = {"quick": 160, "thorough": 1500}
+BUDGET = {"quick": 160, "thorough": 1250}
 
 CLS = {0: Bip32KholawEd25519, 1: CardanoIcarusBip32, 2: CardanoByronLegacyBip32,
        3: Bip32KholawEd25519, 4: CardanoByronLegacyBip32}
@@ -384,7 +384,8 @@ def direct_byron_wallet(a):
 
 
 def direct_f7(a):
-    """Documented argument type Bip32KeyIndex for the CardanoByronLegacy getters."""
+    """Documented argument type Bip32KeyIndex for the CardanoByronLegacy getters (former finding F7, repaired in
+    /repo by commit bf4b2c0; kept as a regression check)."""
     seed, i1, i2, which = a
     w = CardanoByronLegacy.FromSeed(seed)
     fn = [w.GetAddress, w.GetPublicKey, w.GetPrivateKey][which]
@@ -484,15 +485,6 @@ def byron_pubderiv_bit255_replay():
     if priv[1] != pub[1]:
         return "CardanoByronLegacyBip32 m/%d: public derivation %s != private derivation %s" % (a[5][0], pub[1].hex()[:16], priv[1].hex()[:16])
     return None
-
-
-def f7_index_objects(fn, args, rec):
-    """CardanoByronLegacy getters called with Bip32KeyIndex objects (documented argument type)."""
-    return fn == "byron_index_objects"
-
-
-def f7_index_objects_replay():
-    return direct_f7([bytes(range(32)), 0, 0, 0])
 
 
 # ------------------------------------------------------------------ generators
